@@ -54,17 +54,16 @@ def rel_depths(node):
 def admitted_ids(node, stop_ids, maxlevel):
     """ids of admitted nodes: relative depth < maxlevel and no stop node on the path start..node inclusive."""
     out = set()
-
-    def walk(cur, depth):
+    stack = [(node, 0)]
+    while stack:
+        cur, depth = stack.pop()
         if maxlevel is not None and depth >= maxlevel:
-            return
+            continue
         if id(cur) in stop_ids:
-            return
+            continue
         out.add(id(cur))
         for child in cur.children:
-            walk(child, depth + 1)
-
-    walk(node, 0)
+            stack.append((child, depth + 1))
     return out
 
 
